@@ -179,6 +179,22 @@ func mergeOut(res *runResult, o *WorkerOut) {
 	if o.Broken != "" && a.Broken == "" {
 		a.Broken = o.Broken
 	}
+	for k, v := range o.Digests {
+		if a.Digests == nil {
+			a.Digests = map[string]string{}
+		}
+		if old, ok := a.Digests[k]; ok && old != v {
+			sig := "nondeterministic-across-processes:" + strings.SplitN(k, "/", 2)[0]
+			a.Violated++
+			a.ViolBySig[sig]++
+			if a.ViolBySig[sig] <= 2 {
+				a.Violations = append(a.Violations, Viol{K: -1, Sig: sig, Msg: fmt.Sprintf("scenario %s produced digest %s in one process and %s in another", k, old, v)})
+			}
+		} else {
+			a.Digests[k] = v
+		}
+		a.Counters["cross_process_digests_compared"]++
+	}
 }
 
 // spawnWorker runs one child over [lo,hi). It returns the child's output (nil if none), and, if the
